@@ -1,6 +1,7 @@
 """C12: SIMD evaluation equals scalar evaluation for every size, shape and layout; no access outside the buffers."""
 import math
 import os
+import time
 
 import numpy as np
 
@@ -21,13 +22,19 @@ CLAIM = dict(
          "vector_128/256/512, simde_AVX512. Held-on-observed, not a proof.",
     note="Trusted: g++ ASan/UBSan instrumentation of intrinsics and vector-extension code, NumPy/longdouble reference, %a round trip. "
          "Not covered: integer element types, compile-time-shaped operands, NaN/Inf/zero/denormal inputs, combinations that do not compile "
-         "(simde_AVX512 x double x {hardshrink,hardswish,softshrink,matmul}; reciprocal has no SIMD implementation).",
+         "(simde_AVX512 x {hardshrink,hardswish,softshrink}, simde_AVX512 x double x matmul; reciprocal has no SIMD implementation).",
     ref="DESIGN.md 4/C12")
 
 
-def _targets(ctxs):
+def _groups():
+    """all op groups; VERIF_C12_GROUPS=unary,reduce restricts a development run (the verdict then only covers those groups)"""
+    only = os.environ.get("VERIF_C12_GROUPS")
+    return [g for g in G.GROUPS if not only or g in only.split(",")]
+
+
+def _targets(ctxs, groups=None):
     return [B.Target(os.path.join(B.HARNESS, "c12_%s.cpp" % g), "simd", ["-DC12_CTX=%d" % c], name="c12_%s_%s" % (g, G.CONTEXTS[c][0]))
-            for c in ctxs for g in G.GROUPS]
+            for c in ctxs for g in (groups or G.GROUPS)]
 
 
 def _quick_targets():
@@ -72,8 +79,6 @@ class Rec:
         n = int(self.s())
         if n < 0:
             raise ValueError("result too large to emit")
-        if nd == 0:
-            return dict(tag=tag, shape=shape, raw=[])
         return dict(tag=tag, shape=shape, raw=[self.s() for _ in range(n)])
 
 
@@ -276,10 +281,10 @@ def check_case(ctx, F, c, toks, stats):
     if ok == 0:
         stats["evaluator_returned_false"] += 1
     # ---- shape
-    if si["shape"] != sc["shape"] or len(si["raw"]) != len(sc["raw"]):
+    if (si["shape"] or None) != (sc["shape"] or None) or len(si["raw"]) != len(sc["raw"]):
         F.add(c, "shape", "%s: SIMD result has shape %s, scalar evaluator %s (NumPy %s)" % (short(c), si["shape"], sc["shape"], ref_shape), det)
         return
-    if sc["shape"] != ref_shape and not (sc["shape"] is None and ref_shape in ([], None)):
+    if (sc["shape"] or None) != (ref_shape or None):
         F.add(c, "numpy_shape", "%s: both evaluators return shape %s, NumPy %s" % (short(c), sc["shape"], ref_shape), det)
         return
     if len(ref) != len(sc["raw"]):
@@ -327,10 +332,35 @@ def check_case(ctx, F, c, toks, stats):
             return
 
 
+def crash_class(kind):
+    """symptom class of a process death: independent of the access width / sanitizer wording"""
+    if kind.startswith("asan:") or kind.startswith("signal:SIGSEGV") or kind.startswith("signal:SIGBUS"):
+        return "memory"
+    if kind.startswith("ubsan:"):
+        return "ubsan"
+    if kind.startswith("lsan"):
+        return "leak"
+    if kind in ("assert", "glibcxx-assert"):
+        return kind
+    return kind.split(":")[0]
+
+
+def top_frames(err):
+    """library frames of a sanitizer / assert report (for the one-line description)"""
+    import re
+    fr = []
+    for ln in err.splitlines():
+        m = re.search(r"(include/nmtools/[\w/.]+:\d+)", ln)
+        if m and m.group(1) not in fr:
+            fr.append(m.group(1))
+    return (" at " + " <- ".join(fr[:3])) if fr else ""
+
+
 def run(ctx):
     quick = ctx.tier == "quick"
     ctxs = G.QUICK_CTX if quick else G.ALL_CTX
-    targets = _targets(ctxs)
+    groups = _groups()
+    targets = _targets(ctxs, groups)
     res = B.build(targets)
     bins = {}
     notbuilt = []
@@ -350,33 +380,92 @@ def run(ctx):
     per = {}
     ncrash = 0
     crash_kinds = {}
+    env_fast = {"ASAN_OPTIONS": R.ENV_SAN["ASAN_OPTIONS"] + ":symbolize=0", "UBSAN_OPTIONS": "print_stacktrace=0:halt_on_error=1"}
+    dropped = {}
+    tim = dict(run=0.0, gen=0.0, oracle=0.0, rerun=0.0)
     for cid in ctxs:
         cname = G.CONTEXTS[cid][0]
-        for g in G.GROUPS:
+        for g in groups:
             cases = []
+            t0_ = time.time()
             for gen in G.GEN[g]:
                 cases += gen(cid, ctx.tier, D)
-            lines = [(str(i), "%d %s" % (i, c.line)) for i, c in enumerate(cases)]
-            results, crashes, touts = R.run_cases(bins["c12_%s_%s" % (g, cname)], lines)
+            tim["gen"] += time.time() - t0_
+            binary = bins["c12_%s_%s" % (g, cname)]
             per["%s/%s" % (cname, g)] = len(cases)
+            # phases: 2 smallest cases of every (form, op, dtype, class), then 8 more spread over the class, then the rest;
+            # a class with >= 3 process deaths so far is not expanded further (bounds the number of restarts)
+            probe = {}
+            for i, c in enumerate(cases):
+                probe.setdefault((c.form, c.opname, c.dt, c.meta["cls"]), []).append(i)
+            kof = {}
+            for k, idx in probe.items():
+                for i in idx:
+                    kof[i] = k
+            phase_of = {}
+            for k, idx in probe.items():
+                rest = idx[2:]
+                step = max(1, len(rest) // 8)
+                second = set(rest[::step][:8])
+                for n_, i in enumerate(idx):
+                    phase_of[i] = 1 if n_ < 2 else (2 if i in second else 3)
+            results, crashes, touts = {}, [], []
+            dead = set()
+            for phase in (1, 2, 3):
+                deaths = {}
+                for cr in crashes:
+                    if cr.case_id.isdigit():
+                        k = kof[int(cr.case_id)]
+                        deaths[k] = deaths.get(k, 0) + 1
+                dead = {k for k, n_ in deaths.items() if n_ >= 3 or n_ >= len([i for i in probe[k] if phase_of[i] < phase])}
+                sel = [i for i in range(len(cases)) if phase_of[i] == phase and kof[i] not in dead]
+                if phase == 3:
+                    for k in dead:
+                        n_ = len([i for i in probe[k] if phase_of[i] == 3])
+                        if n_:
+                            dropped["%s/%s/%s/%s/%s" % (cname, k[0], k[1], G.TAG[k[2]], k[3])] = n_
+                if not sel:
+                    continue
+                lines = [(str(i), "%d %s" % (i, cases[i].line)) for i in sel]
+                t0_ = time.time()
+                r_, c_, t_ = R.run_cases(binary, lines, env_extra=env_fast)
+                tim["run"] += time.time() - t0_
+                results.update(r_)
+                crashes += c_
+                touts += t_
+            skipped_idx = {i for i in range(len(cases)) if str(i) not in results}
+            # symbolised witness: re-run the first crashing case of every (op, class, kind) alone
+            rerun = {}
             for cr in crashes:
                 ncrash += 1
                 crash_kinds[cr.kind()] = crash_kinds.get(cr.kind(), 0) + 1
                 if cr.case_id.isdigit():
                     c = cases[int(cr.case_id)]
-                    F.ran_case(c)
-                    F.add(c, "crash:" + cr.kind(), "%s: process died: %s" % (short(c), cr.kind()),
-                          dict(case=describe(c), line=c.line[:1500], stderr=cr.stderr[-3000:]))
+                    rerun.setdefault((c.opname, c.meta["cls"], crash_class(cr.kind())), (c, cr))
                 else:
-                    ctx.violation("%s:%s:outside_case:crash:%s" % (g, cname, cr.kind()), "runner died outside a case: %s" % cr.kind(), dict(stderr=cr.stderr[-3000:]))
+                    ctx.violation("%s:%s:outside_case:crash:%s" % (g, cname, crash_class(cr.kind())), "runner died outside a case: %s" % cr.kind(), dict(stderr=cr.stderr[-3000:]))
+            t0_ = time.time()
+            for (opn, cls, kind), (c, cr) in sorted(rerun.items())[:40]:
+                _, c2, _ = R.run_cases(binary, [("0", "0 " + c.line)], nbatch=1)
+                err = c2[0].stderr if c2 else cr.stderr
+                F.ran_case(c)
+                F.add(c, "crash:" + kind, "%s: process died: %s%s" % (short(c), cr.kind(), top_frames(err)),
+                      dict(case=describe(c), line=c.line[:1500], stderr=err[-3500:]))
+            tim["rerun"] += time.time() - t0_
+            for cr in crashes:
+                if cr.case_id.isdigit():
+                    c = cases[int(cr.case_id)]
+                    F.ran_case(c)
+                    F.add(c, "crash:" + crash_class(cr.kind()), "%s: process died: %s" % (short(c), cr.kind()), dict(case=describe(c), line=c.line[:1500]))
             for t in touts:
                 ctx.inconc("timeout in %s/%s case %s" % (cname, g, t))
             crashed = {cr.case_id for cr in crashes}
             missing = 0
+            t0_ = time.time()
             for i, c in enumerate(cases):
                 r = results.get(str(i))
                 if r is None:
-                    if str(i) not in crashed:
+                    if str(i) not in crashed and kof[i] not in dead:
                         missing += 1
                     continue
                 toks, hooks = split_hooks(r)
@@ -393,6 +482,7 @@ def run(ctx):
                 ctx.seen((c.form, c.opname, cname, c.dt, c.meta["cls"], str(shp), c.meta.get("axis"), c.meta.get("keepdims")))
                 if len(ctx.samples) < 6 and i % 997 == 3:
                     ctx.sample(dict(case=short(c), record=" ".join(toks[:24])))
+            tim["oracle"] += time.time() - t0_
             if missing:
                 ctx.inconc("%d cases of %s/%s produced no record" % (missing, cname, g))
     for key, (what, detail), extra in F.keys():
@@ -405,13 +495,16 @@ def run(ctx):
                 "distinct = (form, op, context, dtype, argument class, shapes, axis, keepdims) tuples executed" % ([G.CONTEXTS[c][0] for c in ctxs],))
     ctx.exhaustive = False
     ctx.set("contexts", [G.CONTEXTS[c][0] for c in ctxs])
+    ctx.set("groups", groups)
     ctx.set("cases_per_binary", per)
     ctx.set("elements_compared", stats["elements"])
     ctx.set("simd_evaluator_returned_false", stats["evaluator_returned_false"])
     ctx.set("hook_events", hacc.summary())
     ctx.set("crashes_contained", ncrash)
     ctx.set("crash_kinds", crash_kinds)
-    ctx.set("not_compilable_excluded", ["simde_AVX512 x double x hardshrink/hardswish/softshrink (simde_knot_mask8/simde_kxor_mask8 undeclared)",
+    ctx.set("seconds", {k: round(v, 1) for k, v in tim.items()})
+    ctx.set("classes_not_expanded_after_probe_crash", dropped)
+    ctx.set("not_compilable_excluded", ["simde_AVX512 x hardshrink/hardswish/softshrink (simde_knot_mask*/simde_kxor_mask* undeclared by the installed simde)",
                                         "simde_AVX512 x double x matmul (simd_op_t::fmadd passes __m512d to simde_mm512_fmadd_ps)",
                                         "reciprocal: included by simd/ufunc.hpp but has no ufunc_simd_t specialisation in any context",
                                         "divide.reduce / divide.outer: not provided by the library; subtract.reduce: not a re-associable reduction, untested upstream"])
